@@ -36,6 +36,23 @@ BAD_VALUES = [2 ** 31, 2 ** 40, -2 ** 31 - 1, 2 ** 64]
 ERRVAL = -77
 
 
+class Clobber(object):
+    """an integer-like argument whose conversion runs Python code that makes a failing system call
+    (so the real C errno is overwritten while cffi converts the arguments)"""
+
+    def __init__(self, n):
+        self.n = n
+
+    def __int__(self):
+        try:
+            os.stat('/nonexistent/verif-c22-%d' % (self.n & 7))
+        except OSError:
+            pass
+        return self.n
+
+    __index__ = __int__
+
+
 class Violation(Exception):
     def __init__(self, clause, detail):
         self.clause = clause
@@ -79,7 +96,7 @@ class Run(object):
         self.events.append(('get', w, v))
         if v != self.S[w]:
             self.fail('C22.2' if self.lastwrite.get(w) != 'set' else 'C22.1',
-                      'thread %d: ffi.errno is %d, its own errno should be %d (last change: %s)'
+                      'thread %s: ffi.errno is %d, its own errno should be %d (last change: %s)'
                       % (w, v, self.S[w], self.lastwrite.get(w)))
             self.S[w] = v
 
@@ -103,11 +120,16 @@ class Run(object):
         self.lastwrite[w] = 'set'
 
     def probe(self, w, path, n):
-        got = self.probes[path](n)
+        if path.endswith('_conv'):
+            # same call path, but converting the argument clobbers the C errno first
+            got = self.probes[path[:-5]](Clobber(n))
+            self.out.fault('argument_conversion_clobbers_errno')
+        else:
+            got = self.probes[path](n)
         self.events.append(('probe', w, path, got))
         if got != self.S[w]:
             self.fail('C22.1' if self.lastwrite.get(w) == 'set' else 'C22.3',
-                      'thread %d: C function called through %s saw errno %d, expected %d (last change: %s)'
+                      'thread %s: C function called through %s saw errno %d, expected %d (last change: %s)'
                       % (w, path, got, self.S[w], self.lastwrite.get(w)))
         self.S[w] = n
         self.lastwrite[w] = 'C'
@@ -127,7 +149,7 @@ class Run(object):
         if v != self.check.gv_value:
             self.fail('C22.1', 'lib.gv reads %r, expected %r' % (v, self.check.gv_value))
         if seen != self.S[w]:
-            self.fail('C22.1', 'thread %d: the fetch function of global variable gv saw errno %d, expected %d'
+            self.fail('C22.1', 'thread %s: the fetch function of global variable gv saw errno %d, expected %d'
                       % (w, seen, self.S[w]))
         self.S[w] = self.S[w] + 1000 if seen == self.S[w] else seen + 1000
         self.lastwrite[w] = 'C'
@@ -166,10 +188,10 @@ class Run(object):
         self.cur[w].pop()
         want_r = ERRVAL if raises else pre + 1
         if r != want_r:
-            self.fail('C22.2', 'thread %d: callback through %s returned %d, expected %d' % (w, path, r, want_r))
+            self.fail('C22.2', 'thread %s: callback through %s returned %d, expected %d' % (w, path, r, want_r))
         # C read errno right after the callback returned: it must be what the body left in ffi.errno
         if seen[0] != self.S[w]:
-            self.fail('C22.2', 'thread %d: after a callback (%s) C saw errno %d, the callback had left %d'
+            self.fail('C22.2', 'thread %s: after a callback (%s) C saw errno %d, the callback had left %d'
                       % (w, path, seen[0], self.S[w]))
         self.lastwrite[w] = 'cb'
         self.out.probe('callback_path_' + path)
@@ -185,7 +207,7 @@ class Run(object):
             return 0
         body, raises, depth, want_pre = stack[-1]
         if pre != want_pre:
-            self.fail('C22.3', 'thread %d: callback received argument %d, expected %d' % (w, pre, want_pre))
+            self.fail('C22.3', 'thread %s: callback received argument %d, expected %d' % (w, pre, want_pre))
         self.S[w] = pre
         self.lastwrite[w] = 'C'
         if self.sched.is_holder_thread() and len([c for c in self.sched.clients if c.status == 'R']) > 1:
@@ -196,8 +218,32 @@ class Run(object):
             raise RuntimeError('injected callback failure')
         return pre + 1
 
+    # ---- a thread whose first contact with cffi is this very callback ----
+    def oneshot(self, w, pre, body, xp):
+        self.oneshot_n = getattr(self, 'oneshot_n', 0) + 1
+        key = 'oneshot%d' % self.oneshot_n
+        self.S[key] = None
+        self.cur[key] = [([st for st in body if st[0] not in ('pt', 'cb')], False, 2, pre)]
+        self.oneshot_key = key
+        seen = self.check.iffi.new('int *', -12345)
+        r = self.check.ftmod.lib.ft_oneshot(self.drv.cb, pre, xp, seen)
+        self.oneshot_key = None
+        if self.violation is None:
+            if r != pre + 1:
+                self.fail('C22.2', 'callback in a brand-new foreign thread returned %d, expected %d' % (r, pre + 1))
+            elif seen[0] != self.S.get(key):
+                self.fail('C22.2', 'brand-new foreign thread: after its first callback C saw errno %d, the callback '
+                          'had left %r' % (seen[0], self.S.get(key)))
+        self.out.probe('first_callback_of_a_brand_new_foreign_thread')
+
     # ---- foreign thread body (ftdriver): same scripts, own shadow ----
     def foreign_body(self, who, arg):
+        if who == -99:
+            key = self.oneshot_key
+            self.S[key] = arg            # C set errno = arg just before calling back
+            self.lastwrite[key] = 'C'
+            self.steps(key, self.cur[key][-1][0], 2)
+            return arg + 1
         c = self.sched.me()
         w = c.id
         if w not in self.S:
@@ -218,12 +264,16 @@ class Run(object):
             # a new thread's shadow starts at 0 (checked below)
             v0 = self.check.iffi.errno
             if v0 != 0:
-                self.fail('C22.3', 'thread %d starts with ffi.errno == %d (another thread\'s value leaked?)' % (w, v0))
+                self.fail('C22.3', 'thread %s starts with ffi.errno == %d (another thread\'s value leaked?)' % (w, v0))
             self.S[w] = v0
             F = None
             for st in script:
                 if self.violation is not None:
                     break
+                if st[0] == 'oneshot':
+                    if self.drv is not None:
+                        self.oneshot(w, st[1], st[2], st[3])
+                    continue
                 if st[0] == 'fcall':
                     if self.drv is None:
                         continue
@@ -321,7 +371,8 @@ class C22(core.Check):
             elif k == 'badset':
                 out.append(['set', rng.choice(BAD_VALUES), rng.below(2)])
             elif k == 'probe':
-                out.append(['probe', rng.choice(['api', 'addr', 'dlopen', 'abi']), rng.choice(VALUES)])
+                out.append(['probe', rng.choice(['api', 'addr', 'dlopen', 'abi', 'api_conv', 'addr_conv', 'dlopen_conv']),
+                            rng.choice(VALUES)])
             elif k == 'cb':
                 out.append(['cb', rng.choice(['cb_i', 'cb_m', 'cb_dl', 'xp']), rng.choice(VALUES[:10]),
                             self.gen_steps(rng, rng.randint(0, 4), depth + 1), rng.chance(0.12)])
@@ -340,6 +391,10 @@ class C22(core.Check):
                 pos = rng.randint(0, len(threads[0]))
                 threads[0].insert(pos, ['fcall', rng.choice(VALUES[:10]), self.gen_steps(rng, rng.randint(0, 4), 1),
                                         rng.below(2)])
+            for _ in range(rng.randint(0, 2)):
+                t = rng.below(len(threads))
+                threads[t].insert(rng.randint(0, len(threads[t])),
+                                  ['oneshot', rng.choice(VALUES[1:10]), self.gen_steps(rng, rng.randint(1, 4), 2), rng.below(2)])
         variant = 'T' if (idx // self.chunk) % 2 == 0 else 'N'
         return dict(threads=threads, foreign=foreign, strategy=rng.choice(['random', 'sticky', 'pct']),
                     stick=rng.choice([0.5, 0.8, 0.95]), pct_changes=rng.randint(1, 3), sched_seed=rng.u64(),
